@@ -982,7 +982,7 @@ pub fn finalize_grammar(prop: &str, tier: &str, out: ShardOut, is_replay: bool) 
         "statuses_observed": statuses.iter().cloned().collect::<Vec<_>>(),
         "counters": cov.counters,
         "situations_top": top.iter().take(50).map(|(k, v)| json!({"situation": k, "n": v})).collect::<Vec<_>>(),
-        "process_level_situations": cov.situations.iter().filter(|(k, _)| k.starts_with("memory-limited-executable|") || k.starts_with("stalled-oversize|") || k.starts_with("slow-storage|") || k.starts_with("conditional|") || k.starts_with("announced-")).map(|(k, v)| json!({"situation": k, "n": v})).collect::<Vec<_>>(),
+        "process_level_situations": cov.situations.iter().filter(|(k, _)| k.starts_with("memory-limited-executable|") || k.starts_with("stalled-oversize|") || k.starts_with("slow-storage|") || k.starts_with("conditional|") || k.starts_with("announced-") || k.contains("|long-stall|")).map(|(k, v)| json!({"situation": k, "n": v})).collect::<Vec<_>>(),
     });
     let mut required: Vec<&str> = vec!["status=200", "status=400", "status=404"];
     if prop == "C15" {
@@ -1924,6 +1924,21 @@ fn binary_sample(prop: &str, seed: u64, n: usize, grams: &[Gram], cov: &mut Cov,
             return None;
         }
     };
+    // thorough tier, C20: uploads that go silent in mid-body for longer than the customary deadlines
+    // (30 s, 1, 2 and 5 minutes) and then complete, each on a connection of its own while everything
+    // below runs; whatever is answered to them is judged at the end
+    let mut stalls: Vec<(u64, std::thread::JoinHandle<HttpResp>)> = vec![];
+    if prop == "C20" && n >= 2000 {
+        for secs in [35u64, 65, 125, 305] {
+            let a = addr.clone();
+            let c = Uuid::new_v4();
+            stalls.push((secs, std::thread::spawn(move || {
+                let req = HttpReq::new("POST", &format!("/v1/client/add-version/{}", Uuid::nil())).header("X-Client-Id", &c.to_string()).header("Content-Type", CT_HISTORY).body(vec![0x42; 3000]);
+                let mut between = || std::thread::sleep(Duration::from_secs(secs));
+                crate::http::socket_request_two_parts(&a, &req, 1200, Duration::from_secs(secs + 60), &mut between)
+            })));
+        }
+    }
     if let Some(f) = socket_sample_at(prop, seed ^ 0xB1, n, grams, cov, &fx, &addr, "the real executable (RUST_LOG=debug)") {
         return Some(f);
     }
@@ -1977,6 +1992,15 @@ fn binary_sample(prop: &str, seed: u64, n: usize, grams: &[Gram], cov: &mut Cov,
             }
         }
         let _ = std::fs::remove_file(dir.path());
+    }
+    for (secs, h) in stalls {
+        if let Ok(resp) = h.join() {
+            cov.evaluations += 1;
+            cov.hit(format!("executable|long-stall|pause={secs}s|status={}", if resp.failure.is_some() { "closed".to_string() } else { resp.status.to_string() }));
+            if resp.failure.is_none() && !no_store(&resp) {
+                return Some(found("C20", format!("the real executable: an add-version upload that went silent for {secs} s in mid-body and then completed was answered {}: the response does not forbid caching", resp.describe()), json!({"origin": "executable", "case": 50_000_000})));
+            }
+        }
     }
     proc.kill9();
     None
